@@ -27,6 +27,9 @@ Failed(tr, stage) == \E k \in 1..Len(tr.exc) : tr.exc[k].stage = stage
 
 AbstractClauses(tr, stage) ==
   LET d == tr.doc IN
+  \* a document the YANG models cannot express and that the loaders refuse (tr.accepted: load_gnpy_json took the legacy
+  \* file) is outside "every document accepted by the loaders": nothing to judge
+  IF OutsideYangModel(d) /\ ~tr.accepted THEN {} ELSE
   CASE stage = "ToYang" ->
          \* ja = the caller's document object looked at again after legacy_to_yang returned: still the same document
          (IF ~HasDoc(tr.ja) \/ tr.ja.extra # <<>> \/ Core(tr.ja) # d THEN {"InputDocumentUntouched"} ELSE {})
@@ -54,6 +57,10 @@ AbstractClauses(tr, stage) ==
          IF Failed(tr, "l2y") \/ Failed(tr, "y2l") \/ ~HasDoc(tr.l) THEN {} ELSE
            (IF Failed(tr, "reordered") \/ ~HasDoc(tr.lr) THEN {"ConvertsReorderedYang"}
             ELSE IF tr.lr # tr.l THEN {"KeyedListOrderIrrelevant"} ELSE {})
+           \* yv = the converter's output with the entries of g0_per_frequency / loss_coef_per_frequency listed in
+           \* another order: the legacy vectors may come in that order, each value must stay with its key
+           \cup (IF Failed(tr, "revectors") \/ ~HasDoc(tr.lv) THEN {"ConvertsReorderedYang"}
+                 ELSE IF ~SameUpToVectorOrder(tr.lv, tr.l) THEN {"KeyedPairsStayTogether"} ELSE {})
            \cup (IF Failed(tr, "qualified") \/ ~HasDoc(tr.lq) THEN {"ConvertsQualifiedYang"}
                  ELSE IF tr.lq # tr.l THEN {"IdentitySpellingIrrelevant"} ELSE {})
            \cup (IF Failed(tr, "written") \/ ~HasDoc(tr.lw) THEN {"WritesYangFile"}
